@@ -689,11 +689,11 @@ def _features_check(prop, tier, rule, assumptions, layouts):
     c.rule = rule
     vlib.build_harness()
     exe = vlib.build_server(False)
-    sets = [("MC_SplStatic_valid", 4), ("MC_SplStatic_valid3s", 1), ("MC_SplStatic_shadow", 4), ("MC_SplStatic_shadowt", 8), ("MC_SplStatic_body", 5)] if tier == "quick" \
-        else [("MC_SplStatic_valid17", 3), ("MC_SplStatic_valid3", 2), ("MC_SplStatic_shadow", 1), ("MC_SplStatic_shadowt25", 8), ("MC_SplStatic_body22", 3)]
+    sets = [("MC_SplStatic_valid", 4), ("MC_SplStatic_valid3s", 1), ("MC_SplStatic_shadow", 4), ("MC_SplStatic_shadowt", 8), ("MC_SplStatic_body", 5), ("MC_SplStatic_expr18", 12)] if tier == "quick" \
+        else [("MC_SplStatic_valid17", 3), ("MC_SplStatic_valid3", 2), ("MC_SplStatic_shadow", 1), ("MC_SplStatic_shadowt25", 8), ("MC_SplStatic_body22", 3), ("MC_SplStatic_expr20", 25)]
     for cfg, stride in sets:
         res = vlib.tlc("MC_SplStatic", cfg + ".cfg", prop.lower() + "_" + cfg, timeout=6000, heap="16g")
-        vlib.require_coverage(res, ["PlanProc", "PlanDone", "Expand", "Shift", "Act"] + ([] if "shadow" in cfg or "body" in cfg else ["PlanType"]))
+        vlib.require_coverage(res, ["PlanProc", "PlanDone", "Expand", "Shift", "Act"] + ([] if "shadow" in cfg or "body" in cfg or "expr" in cfg else ["PlanType"]))
         c.add_tlc(res, cfg)
         r = _srv("features", res["out"], prop.lower() + "_" + cfg, exe,
                  ["props=" + prop, "layouts=" + layouts, "stride=%d" % stride, "offset=%d" % (vlib.seed() % stride)], timeout=7200)
